@@ -136,3 +136,16 @@ Theorem C01_verbatim_cell_is_normal : forall bad c k cls, plain_cell c -> c <> "
   normal_cell bad c.
 Proof. exact verbatim_cell_is_normal. Qed.
 Print Assumptions C01_verbatim_cell_is_normal.
+
+(* DOCUMENT level, ANY spine structure - several spines of any supported type, splits, joins, early ends, comments: when
+   every cell is in normal form under the header that governs it (it is the export of its own token: canonical notes,
+   rests, chords, interpretations kept as simple tokens, spine operators, headers, separator-free comments), the default
+   export of the imported document is the source grid itself minus the '!!' lines and the all-null lines.  With
+   C03_export_text_is_the_exported_grid: export o import = identity on such texts, hence export o import o export = export. *)
+From KV Require Import GridTokensProofs GridIdentityProofs.
+Theorem C01_normal_documents_are_fixed_points : forall bad text d, loads bad text = IOk d ->
+  forall sts, d_stages d = [0] :: sts ->
+  rows_normal bad d sts (filter nonempty_row (rows_of_text text)) ->
+  export_rows d default_opts = Ok (filter keep_row (map row_text (filter nonempty_row (rows_of_text text)))).
+Proof. exact export_of_normal_document. Qed.
+Print Assumptions C01_normal_documents_are_fixed_points.
